@@ -16,7 +16,7 @@ for d in $pat; do
     if ! git -C "$REPO" apply -3 "$(realpath "$d/patch.diff")" 2>/dev/null; then echo "$n: PATCH DOES NOT APPLY"; git -C "$REPO" reset -q --hard HEAD; continue; fi
   fi
   bin/vcheck __build__ >/dev/null 2>&1
-  echo $ids | tr ' ' '\n' | xargs -P 10 -I{} bash -c 'bin/vcheck {} > .work/matrix/'"$n"'.{}.log 2>&1; echo "{}=$?" ' | sort | tr '\n' ' ' > .work/matrix/$n.rcs
+  echo $ids | tr ' ' '\n' | xargs -P 12 -I{} bash -c 'bin/vcheck {} > .work/matrix/'"$n"'.{}.log 2>&1; echo "{}=$?" ' | sort | tr '\n' ' ' > .work/matrix/$n.rcs
   git -C "$REPO" reset -q --hard HEAD
   caught=$(tr ' ' '\n' < .work/matrix/$n.rcs | grep "=1" | cut -d= -f1 | tr '\n' ' ')
   inc=$(tr ' ' '\n' < .work/matrix/$n.rcs | grep "=2" | cut -d= -f1 | tr '\n' ' ')
